@@ -7,7 +7,8 @@ EXTENDS Source, Json, IOUtils, SequencesExt
 
 (* annotation texts: <<text inside the comment, factory it names ("" = none), strict?>>                       *)
 (*   strict = FALSE: the property is silent (name followed by more words): named factory or default accepted *)
-Texts == {<<"@jsx h", "h", TRUE>>, <<"@jsx  custom", "custom", TRUE>>, <<"@jsx h extra words", "h", FALSE>>, <<"@jsx", "", TRUE>>,
+Texts == {<<"@jsx a.b.c", "a.b.c", TRUE>>, <<"@jsx a.b", "a.b", TRUE>>,
+          <<"@jsx h", "h", TRUE>>, <<"@jsx  custom", "custom", TRUE>>, <<"@jsx h extra words", "h", FALSE>>, <<"@jsx", "", TRUE>>,
           <<"@jsxImportSource vue", "", TRUE>>, <<"@jsxRuntime automatic", "", TRUE>>, <<"@jsxFrag F", "", TRUE>>,
           <<"just a comment", "", TRUE>>, <<"@jsximportsource h", "", TRUE>>, <<"see @jsx h", "", FALSE>>}
 Styles == {"block", "line", "jsdoc", "jsdoc_multiline"}
@@ -52,7 +53,7 @@ Raw == {r \in {[place |-> p, style |-> s, text |-> t, optPragma |-> op] :
 
 GroupCases ==
   {[case |-> "C15-g", prop |-> "C15", opts |-> [DefaultOpts EXCEPT !.pragma = op], place |-> p, style |-> "group", text |-> g,
-    named |-> "h", strict |-> TRUE, pragmas |-> <<"h", "custom", "hh", "F">>, items |-> ModuleFor(p, g)] :
+    named |-> "h", strict |-> TRUE, pragmas |-> <<"h", "custom", "hh", "F", "a.b.c", "a.b">>, items |-> ModuleFor(p, g)] :
      g \in Groups, p \in {"head", "before_second", "before_export_default"}, op \in {"", "hh"}}
 
 (* a pragma changes the factory only: whatever else the module needs (the transformOn helper, directives, text nodes) *)
@@ -64,7 +65,7 @@ E6 == Elem(TagHtml("div"), <<Dir("kebab", <<"show">>, "", <<>>, AvExpr(Ident("sv
 HelperCases ==
   {[case |-> "C15-h", prop |-> "C15", opts |-> [DefaultOpts EXCEPT !.pragma = op, !.transformOn = TRUE, !.mergeProps = mp],
     place |-> "head", style |-> "block", text |-> cm, named |-> IF cm = "" THEN "" ELSE "h", strict |-> TRUE,
-    pragmas |-> <<"h", "custom", "hh", "F">>,
+    pragmas |-> <<"h", "custom", "hh", "F", "a.b.c", "a.b">>,
     items |-> (IF cm = "" THEN <<>> ELSE <<Cm(cm)>>) \o <<Item("s1", "module", e)>>] :
      e \in {E4, E5, E6}, op \in {"", "hh"}, cm \in {"", "/* @jsx h */"}, mp \in BOOLEAN}
 
@@ -78,7 +79,7 @@ CaseSeq ==
      IN [case |-> "C15-" \o ToString(i), prop |-> "C15", opts |-> [DefaultOpts EXCEPT !.pragma = r.optPragma],
          place |-> r.place, style |-> r.style, text |-> r.text[1],
          named |-> named, strict |-> r.text[3] \/ ~Effective(r.place),
-         pragmas |-> <<"h", "custom", "hh", "F">>,
+         pragmas |-> <<"h", "custom", "hh", "F", "a.b.c", "a.b">>,
          items |-> ModuleFor(r.place, Comment(r.style, r.text[1]))]]
 
 ASSUME PrintT(<<"CASES", Len(CaseSeq)>>)
